@@ -1,1 +1,1481 @@
-(* stub: to be written *)
+(* C13 — conversion leaves the host process as it found it.
+
+   Executable model of the converter's patch stack and its proofs.
+
+   Anchors (read from /repo on 2026-09-23; the harness re-validates the model against the running
+   code on every run, tie D of harness/c13.py):
+     jax2onnx/plugins/_patching.py        apply_patches, AssignSpec, MonkeyPatchSpec, _MISSING
+     jax2onnx/plugins/plugin_system.py    apply_monkey_patches, _PATCH_STATE, plugin_binding,
+                                          _activate_full_plugin_worlds_for_body, _IN_FUNCTION_BUILD
+     jax2onnx/converter/conversion_api.py _activate_plugin_worlds (ExitStack), _force_jax_x64
+     jax2onnx/user_interface.py           _temporary_x64
+
+   The heap.  `own t a` is the entry of attribute `a` in the __dict__ of object `t` (module, class,
+   instance).  `M t` is the list of STRICT ancestors of `t` in resolution order (type.__mro__[1:] for a
+   class, type(o).__mro__ for an instance, [] for a module).  `getattr` scans t :: M t and returns the
+   first own entry; `setattr` / `delattr` act on `own t` only.  The list form needs no fuel, covers
+   multiple inheritance, and contains the parent-chain form of DESIGN B.3 (`chain fuel parent`, below).
+   Not modelled (validated on the real targets by the harness instead): descriptors, metaclass
+   fall-back of class attribute lookup, module-level __getattr__.                                    *)
+From Coq Require Import List Bool Arith ZArith Lia.
+Import ListNotations.
+
+Definition target := nat.
+Definition attr := nat.
+Definition value := nat.
+Definition key := (target * attr)%type.
+Definition heap := target -> attr -> option value.
+Definition hierarchy := target -> list target.
+
+Definition is_some {A} (o : option A) : bool := match o with Some _ => true | None => false end.
+Definition opt_eqb (x y : option value) : bool :=
+  match x, y with Some a, Some b => a =? b | None, None => true | _, _ => false end.
+Lemma opt_eqb_eq x y : opt_eqb x y = true <-> x = y.
+Proof.
+  destruct x, y; simpl; split; intro H; try discriminate; try reflexivity.
+  - apply Nat.eqb_eq in H. now subst.
+  - inversion H. apply Nat.eqb_refl.
+Qed.
+
+Definition key_eqb (k1 k2 : key) : bool := (fst k1 =? fst k2) && (snd k1 =? snd k2).
+Lemma key_eqb_eq k1 k2 : key_eqb k1 k2 = true <-> k1 = k2.
+Proof.
+  destruct k1, k2; unfold key_eqb; simpl. rewrite andb_true_iff, !Nat.eqb_eq.
+  split; [intros [-> ->]; reflexivity | intro H; inversion H; auto].
+Qed.
+Definition mem (t : target) (l : list target) : bool := existsb (Nat.eqb t) l.
+Lemma mem_In t l : mem t l = true <-> In t l.
+Proof.
+  unfold mem. rewrite existsb_exists. split.
+  - intros [x [Hx He]]. apply Nat.eqb_eq in He. now subst.
+  - intro H. exists t. split; [assumption | apply Nat.eqb_refl].
+Qed.
+Definition in_keys (k : key) (S : list key) : bool := existsb (key_eqb k) S.
+Lemma in_keys_In k S : in_keys k S = true <-> In k S.
+Proof.
+  unfold in_keys. rewrite existsb_exists. split.
+  - intros [x [Hx He]]. apply key_eqb_eq in He. now subst.
+  - intro H. exists k. split; [assumption | now apply key_eqb_eq].
+Qed.
+
+(* ------------------------------------------------------------------ Python attribute primitives *)
+Fixpoint find_attr (h : heap) (a : attr) (l : list target) : option value :=
+  match l with
+  | [] => None
+  | u :: r => match h u a with Some v => Some v | None => find_attr h a r end
+  end.
+
+Definition py_setattr (h : heap) (t : target) (a : attr) (v : value) : heap :=
+  fun u b => if (u =? t) && (b =? a) then Some v else h u b.
+
+(* None = AttributeError (the attribute is not in the object's own dict) *)
+Definition py_delattr (h : heap) (t : target) (a : attr) : option heap :=
+  match h t a with
+  | None => None
+  | Some _ => Some (fun u b => if (u =? t) && (b =? a) then None else h u b)
+  end.
+
+Lemma set_same h t a v : py_setattr h t a v t a = Some v.
+Proof. unfold py_setattr. now rewrite !Nat.eqb_refl. Qed.
+Lemma set_other h t a v u b : (u, b) <> (t, a) -> py_setattr h t a v u b = h u b.
+Proof.
+  intro H. unfold py_setattr.
+  destruct (u =? t) eqn:E1; [|reflexivity]. destruct (b =? a) eqn:E2; [|reflexivity].
+  apply Nat.eqb_eq in E1. apply Nat.eqb_eq in E2. subst. now contradiction H.
+Qed.
+Lemma find_set_other_attr h t a v b l : b <> a -> find_attr (py_setattr h t a v) b l = find_attr h b l.
+Proof.
+  intro Hb. induction l as [|u r IH]; simpl; [reflexivity|].
+  rewrite set_other by (intro E; inversion E; contradiction). now rewrite IH.
+Qed.
+Lemma find_set_notin h t a v b l : ~ In t l -> find_attr (py_setattr h t a v) b l = find_attr h b l.
+Proof.
+  induction l as [|u r IH]; simpl; intro H; [reflexivity|].
+  rewrite set_other by (intro E; inversion E; subst; apply H; now left).
+  rewrite IH by (intro; apply H; now right). reflexivity.
+Qed.
+
+(* ------------------------------------------------------------------ specs, faults, outcomes *)
+(* MonkeyPatchSpec.make_value receives `None if orig is _MISSING else orig`; result None = it raises *)
+Inductive spec :=
+| Assign (t : target) (a : attr) (v : value)
+| Monkey (t : target) (a : attr) (mk : option value -> option value).
+Definition spec_target s := match s with Assign t _ _ | Monkey t _ _ => t end.
+Definition spec_attr s := match s with Assign _ a _ | Monkey _ a _ => a end.
+Definition spec_key s : key := (spec_target s, spec_attr s).
+Definition new_value s (orig : option value) : option value :=
+  match s with Assign _ _ v => Some v | Monkey _ _ mk => mk orig end.
+
+(* Fault schedule of one apply_patches activation.
+   BeforeSet k : an exception while applying spec k before its setattr took effect (_resolve, getattr,
+                 make_value, or setattr itself raising) — the synchronous faults the code permits;
+   AfterSet k  : an exception after setattr of spec k and before `applied.append` — only an
+                 asynchronous exception (KeyboardInterrupt, MemoryError) can strike there;
+   InBody      : the with-body raises.                                                           *)
+Inductive fault := NoFault | BeforeSet (k : nat) | AfterSet (k : nat) | InBody.
+Inductive outcome := Returned | Raised.
+Inductive fpoint := FNone | FBefore | FAfter.
+Definition fpoint_at (f : fault) (k : nat) : fpoint :=
+  match f with
+  | BeforeSet j => if j =? k then FBefore else FNone
+  | AfterSet j => if j =? k then FAfter else FNone
+  | _ => FNone
+  end.
+Definition is_in_body (f : fault) : bool := match f with InBody => true | _ => false end.
+Definition sync_fault (f : fault) : Prop := match f with AfterSet _ => False | _ => True end.
+
+(* an entry of the `applied` list: (tgt, attr, orig) with None = _MISSING *)
+Definition frame := (target * attr * option value)%type.
+
+Section PatchModel.
+Variable M : hierarchy.
+
+Definition lookup (h : heap) (t : target) (a : attr) : option value := find_attr h a (t :: M t).
+
+(* the body of the `finally` loop *)
+Definition restore1 (h : heap) (fr : frame) : heap :=
+  let '(t, a, o) := fr in
+  match o with
+  | Some v => py_setattr h t a v
+  | None => match py_delattr h t a with Some h' => h' | None => h end   (* except Exception: pass *)
+  end.
+Definition restore_all (applied : list frame) (h : heap) : heap := fold_left restore1 (rev applied) h.
+Arguments restore1 : simpl never.
+
+(* the `for s in specs` loop of apply_patches, statement by statement *)
+Fixpoint apply_loop (specs : list spec) (k : nat) (f : fault) (h : heap) (applied : list frame)
+  : heap * list frame * outcome :=
+  match specs with
+  | [] => (h, applied, Returned)
+  | s :: rest =>
+    match fpoint_at f k with
+    | FBefore => (h, applied, Raised)
+    | fp =>
+      let t := spec_target s in let a := spec_attr s in
+      let orig := lookup h t a in                           (* getattr(tgt, s.attr, _MISSING) *)
+      match new_value s orig with
+      | None => (h, applied, Raised)                        (* make_value raised *)
+      | Some v =>
+        let h1 := py_setattr h t a v in                     (* setattr(tgt, s.attr, new) *)
+        match fp with
+        | FAfter => (h1, applied, Raised)
+        | _ => apply_loop rest (S k) f h1 (applied ++ [(t, a, orig)])   (* applied.append(...) *)
+        end
+      end
+    end
+  end.
+
+Definition raise_now : heap -> heap * outcome := fun h => (h, Raised).
+Definition body_of (f : fault) (body : heap -> heap * outcome) : heap -> heap * outcome :=
+  if is_in_body f then raise_now else body.
+
+(* with apply_patches(specs): body      (try: loop; yield   finally: reversed restore) *)
+Definition with_patches (specs : list spec) (f : fault) (body : heap -> heap * outcome) (h : heap)
+  : heap * outcome :=
+  let '(h1, applied, oc) := apply_loop specs 0 f h [] in
+  let r := match oc with Raised => (h1, Raised) | Returned => body_of f body h1 end in
+  (restore_all applied (fst r), snd r).
+
+(* ExitStack of activations (one frame per plugin_binding), innermost last *)
+Fixpoint with_stack (frames : list (list spec * fault)) (body : heap -> heap * outcome)
+  : heap -> heap * outcome :=
+  match frames with
+  | [] => body
+  | (specs, f) :: rest => with_patches specs f (with_stack rest body)
+  end.
+
+(* ---- the same computation as structural recursion (one nested try/finally per spec) *)
+Definition item := (spec * fpoint)%type.
+Fixpoint core (items : list item) (body : heap -> heap * outcome) (h : heap) : heap * outcome :=
+  match items with
+  | [] => body h
+  | (s, fp) :: rest =>
+    match fp with
+    | FBefore => (h, Raised)
+    | _ =>
+      let t := spec_target s in let a := spec_attr s in
+      let orig := lookup h t a in
+      match new_value s orig with
+      | None => (h, Raised)
+      | Some v =>
+        let h1 := py_setattr h t a v in
+        match fp with
+        | FAfter => (h1, Raised)
+        | _ => let r := core rest body h1 in (restore1 (fst r) (t, a, orig), snd r)
+        end
+      end
+    end
+  end.
+Fixpoint annotate (specs : list spec) (k : nat) (f : fault) : list item :=
+  match specs with [] => [] | s :: rest => (s, fpoint_at f k) :: annotate rest (S k) f end.
+
+Lemma restore_all_snoc applied fr h : restore_all (applied ++ [fr]) h = restore_all applied (restore1 h fr).
+Proof. unfold restore_all. rewrite rev_app_distr. reflexivity. Qed.
+
+Lemma loop_core : forall specs k f body h applied,
+  (let '(h1, app', oc) := apply_loop specs k f h applied in
+   let r := match oc with Raised => (h1, Raised) | Returned => body h1 end in
+   (restore_all app' (fst r), snd r))
+  = (let r := core (annotate specs k f) body h in (restore_all applied (fst r), snd r)).
+Proof.
+  induction specs as [|s rest IH]; intros k f body h applied; simpl.
+  - reflexivity.
+  - destruct (fpoint_at f k) eqn:Efp; simpl.
+    + destruct (new_value s (lookup h (spec_target s) (spec_attr s))) as [v|]; simpl; [|reflexivity].
+      rewrite IH. simpl. now rewrite restore_all_snoc.
+    + reflexivity.
+    + destruct (new_value s (lookup h (spec_target s) (spec_attr s))) as [v|]; reflexivity.
+Qed.
+
+Theorem with_patches_core specs f body h :
+  with_patches specs f body h = core (annotate specs 0 f) (body_of f body) h.
+Proof.
+  unfold with_patches. pose proof (loop_core specs 0 f (body_of f body) h []) as L.
+  destruct (apply_loop specs 0 f h []) as [[h1 app'] oc]. cbv zeta in L |- *. rewrite L.
+  unfold restore_all; simpl. now destruct (core _ _ h).
+Qed.
+
+Lemma core_app l1 l2 body h : core (l1 ++ l2) body h = core l1 (core l2 body) h.
+Proof.
+  revert h. induction l1 as [|[s fp] r IH]; intro h; simpl; [reflexivity|].
+  destruct fp; try reflexivity;
+    destruct (new_value s _); try reflexivity; now rewrite IH.
+Qed.
+
+Fixpoint stack_items (frames : list (list spec * fault)) : list item :=
+  match frames with
+  | [] => []
+  | (specs, f) :: rest => annotate specs 0 f ++ (if is_in_body f then [] else stack_items rest)
+  end.
+Fixpoint stack_body (frames : list (list spec * fault)) (body : heap -> heap * outcome) :=
+  match frames with
+  | [] => body
+  | (_, f) :: rest => if is_in_body f then raise_now else stack_body rest body
+  end.
+Lemma core_body_ext l b1 b2 : (forall h, b1 h = b2 h) -> forall h, core l b1 h = core l b2 h.
+Proof.
+  intro E. induction l as [|[s fp] r IHl]; intro h; simpl; [apply E|].
+  destruct fp; try reflexivity; destruct (new_value s _); try reflexivity; now rewrite IHl.
+Qed.
+Theorem with_stack_core frames body h :
+  with_stack frames body h = core (stack_items frames) (stack_body frames body) h.
+Proof.
+  revert h. induction frames as [|[specs f] rest IH]; intro h; simpl; [reflexivity|].
+  rewrite with_patches_core. unfold body_of.
+  destruct (is_in_body f); simpl.
+  - now rewrite app_nil_r.
+  - rewrite core_app. now apply core_body_ext.
+Qed.
+
+(* ------------------------------------------------------------------ what is restored: relation R *)
+(* R S h h' : h' is h except that keys in S which h does not own may have been MATERIALISED: the own
+   entry now holds what getattr used to find through the ancestors (None stays None).               *)
+Definition R (S : list key) (h h' : heap) : Prop :=
+  forall u b, h' u b = h u b \/ (In (u, b) S /\ h u b = None /\ h' u b = lookup h u b).
+
+Lemma R_refl S h : R S h h.
+Proof. intros u b. now left. Qed.
+Lemma R_mono S S' h h' : incl S S' -> R S h h' -> R S' h h'.
+Proof. intros Hi HR u b. destruct (HR u b) as [E|[I [N L]]]; [now left|right; auto]. Qed.
+
+Definition body_materializes_only (Sb : list key) (body : heap -> heap * outcome) : Prop :=
+  forall h0, R Sb h0 (fst (body h0)).
+(* exact restoration of every own dict *)
+Definition body_restores (body : heap -> heap * outcome) : Prop :=
+  forall h0 u b, fst (body h0) u b = h0 u b.
+Lemma body_restores_mat body : body_restores body -> body_materializes_only [] body.
+Proof. intros H h0 u b. left. apply H. Qed.
+
+Lemma restore1_same h t a o : restore1 h (t, a, o) t a = o.
+Proof.
+  unfold restore1. destruct o as [v|]; [apply set_same|].
+  unfold py_delattr. destruct (h t a) eqn:E; [|assumption]. now rewrite !Nat.eqb_refl.
+Qed.
+Lemma restore1_other h t a o u b : (u, b) <> (t, a) -> restore1 h (t, a, o) u b = h u b.
+Proof.
+  intro H. unfold restore1. destruct o as [v|]; [now apply set_other|].
+  unfold py_delattr. destruct (h t a) eqn:E; [|reflexivity].
+  destruct (u =? t) eqn:E1; [|reflexivity]. destruct (b =? a) eqn:E2; [|reflexivity].
+  apply Nat.eqb_eq in E1. apply Nat.eqb_eq in E2. subst. now contradiction H.
+Qed.
+Lemma lookup_owned h t a v : h t a = Some v -> lookup h t a = Some v.
+Proof. intro H. unfold lookup. simpl. now rewrite H. Qed.
+Lemma lookup_unowned h t a : h t a = None -> lookup h t a = find_attr h a (M t).
+Proof. intro H. unfold lookup. simpl. now rewrite H. Qed.
+
+(* ------------------------------------------------------------------ the side condition *)
+(* ownership is tracked abstractly: o u b = "u owns b now".  A clash: spec (t,a) is applied while a
+   LATER-applied key (u,a) — in the same activation, an inner activation, or the body — is still
+   unowned and has t among its ancestors.  That later getattr then reads the patched value as its
+   "original" and the unwinding writes it into own u.                                               *)
+Definition owned_add (o : target -> attr -> bool) (t : target) (a : attr) : target -> attr -> bool :=
+  fun u b => o u b || ((u =? t) && (b =? a)).
+Definition clash_with (o' : target -> attr -> bool) (t : target) (a : attr) (k : key) : bool :=
+  let (u, b) := k in (b =? a) && mem t (M u) && negb (o' u b).
+Fixpoint clash_free (o : target -> attr -> bool) (ks inner : list key) : bool :=
+  match ks with
+  | [] => true
+  | (t, a) :: rest =>
+    let o' := owned_add o t a in
+    forallb (fun k => negb (clash_with o' t a k)) (rest ++ inner) && clash_free o' rest inner
+  end.
+(* the clashing (patched ancestor, later unowned key) pairs, for reporting *)
+Fixpoint clash_list (o : target -> attr -> bool) (ks inner : list key) : list (target * key) :=
+  match ks with
+  | [] => []
+  | (t, a) :: rest =>
+    let o' := owned_add o t a in
+    map (fun k => (t, k)) (filter (clash_with o' t a) (rest ++ inner)) ++ clash_list o' rest inner
+  end.
+Lemma clash_list_nil o ks inner : clash_list o ks inner = [] -> clash_free o ks inner = true.
+Proof.
+  revert o. induction ks as [|[t a] rest IH]; intros o H; simpl in *; [reflexivity|].
+  apply app_eq_nil in H. destruct H as [H1 H2]. rewrite (IH _ H2), andb_true_r.
+  apply forallb_forall. intros k Hk. destruct (clash_with _ t a k) eqn:E; [|reflexivity].
+  exfalso. assert (In k (filter (clash_with (owned_add o t a) t a) (rest ++ inner))) as I
+    by (apply filter_In; auto).
+  apply (in_map (fun k => (t, k))) in I. rewrite H1 in I. destruct I.
+Qed.
+
+Definition owned_in (h : heap) : target -> attr -> bool := fun u b => is_some (h u b).
+Definition no_inherited_clash (h : heap) (specs : list spec) : bool :=
+  clash_free (owned_in h) (map spec_key specs) [].
+(* heap-independent variant (every key treated as unowned): what a body needs to be re-usable *)
+Definition static_clash_free (ks inner : list key) : bool := clash_free (fun _ _ => false) ks inner.
+
+Lemma clash_free_mono : forall ks inner (o1 o2 : target -> attr -> bool),
+  (forall u b, o1 u b = true -> o2 u b = true) ->
+  clash_free o1 ks inner = true -> clash_free o2 ks inner = true.
+Proof.
+  induction ks as [|[t a] rest IH]; intros inner o1 o2 Hle H; simpl in *; [reflexivity|].
+  apply andb_true_iff in H. destruct H as [H1 H2]. apply andb_true_iff. split.
+  - rewrite forallb_forall in *. intros k Hk. specialize (H1 k Hk).
+    destruct k as [u b]. unfold clash_with in *.
+    destruct ((b =? a) && mem t (M u)); simpl in *; [|reflexivity].
+    rewrite negb_involutive in *. unfold owned_add in *.
+    apply orb_true_iff in H1. apply orb_true_iff. destruct H1; [left; auto|now right].
+  - apply (IH inner (owned_add o1 t a)); [|assumption].
+    intros u b. unfold owned_add. rewrite !orb_true_iff. intros [E|E]; [left; auto|now right].
+Qed.
+
+Definition sync_items (items : list item) : Prop := forall s, ~ In (s, FAfter) items.
+Lemma sync_annotate specs k f : sync_fault f -> sync_items (annotate specs k f).
+Proof.
+  intros Hf s. revert k. induction specs as [|s0 rest IH]; intro k; simpl; [tauto|].
+  intros [E|I]; [|now apply (IH (S k))].
+  inversion E as [[E1 E2]]. destruct f; simpl in *; try discriminate; try contradiction.
+  destruct (k0 =? k); discriminate.
+Qed.
+
+(* ------------------------------------------------------------------ main lemma *)
+Lemma core_R : forall items body Sb h o,
+  (forall u b, o u b = is_some (h u b)) ->
+  sync_items items ->
+  clash_free o (map (fun it => spec_key (fst it)) items) Sb = true ->
+  body_materializes_only Sb body ->
+  R (map (fun it => spec_key (fst it)) items ++ Sb) h (fst (core items body h)).
+Proof.
+  induction items as [|[s fp] rest IH]; intros body Sb h o Ho Hs Hc Hb.
+  - simpl. apply Hb.
+  - simpl in Hc. apply andb_true_iff in Hc. destruct Hc as [Hc1 Hc2].
+    simpl. unfold spec_key in *. simpl in Hc1. remember (spec_target s) as t eqn:Et. remember (spec_attr s) as a eqn:Ea.
+    destruct fp.
+    + (* FNone *)
+      destruct (new_value s (lookup h t a)) as [v|]; simpl; [|apply R_refl].
+      set (h1 := py_setattr h t a v).
+      assert (Ho' : forall u b, owned_add o t a u b = is_some (h1 u b)).
+      { intros u b. unfold owned_add, h1, py_setattr. rewrite Ho.
+        destruct ((u =? t) && (b =? a)); simpl; [apply orb_true_r|apply orb_false_r]. }
+      assert (Hs' : sync_items rest) by (intros s0 I; apply (Hs s0); now right).
+      specialize (IH body Sb h1 _ Ho' Hs' Hc2 Hb).
+      intros u b. destruct (key_eqb (u, b) (t, a)) eqn:Ek.
+      * apply key_eqb_eq in Ek. inversion Ek; subst u b. rewrite restore1_same.
+        destruct (h t a) as [x|] eqn:Eh.
+        -- left. now apply lookup_owned.
+        -- right. split; [now left|]. split; reflexivity.
+      * assert (Hne : (u, b) <> (t, a)) by (intro E; apply key_eqb_eq in E; congruence).
+        rewrite restore1_other by assumption.
+        destruct (IH u b) as [E|[I [N L]]].
+        -- left. rewrite E. unfold h1. now apply set_other.
+        -- assert (Hu : h u b = None) by (rewrite <- N; unfold h1; symmetry; now apply set_other).
+           right. split; [now right|]. split; [assumption|]. rewrite L.
+           rewrite forallb_forall in Hc1. specialize (Hc1 (u, b) I). simpl in Hc1.
+           rewrite Ho', N in Hc1. simpl in Hc1. rewrite andb_true_r in Hc1.
+           apply negb_true_iff in Hc1. unfold lookup, h1.
+           destruct (Nat.eq_dec b a) as [Eba|Hba]; [|now apply find_set_other_attr].
+           subst b. rewrite Nat.eqb_refl in Hc1. simpl in Hc1.
+           apply find_set_notin. intros [E|I2].
+           ++ subst u. now contradiction Hne.
+           ++ apply mem_In in I2. congruence.
+    + simpl. apply R_refl.
+    + exfalso. apply (Hs s). now left.
+Qed.
+
+
+(* ------------------------------------------------------------------ from R to getattr-equality *)
+(* MRO coherence of observer D for attribute b: every class w on D's linearisation whose entry may be
+   materialised (key in S, unowned) sees through ITS OWN ancestors what D sees from w onwards.
+   Always true under single inheritance (tail_coherent); can fail in a diamond.                    *)
+Fixpoint coh (h : heap) (S : list key) (b : attr) (l : list target) : bool :=
+  match l with
+  | [] => true
+  | w :: post =>
+    (if in_keys (w, b) S && negb (is_some (h w b))
+     then opt_eqb (find_attr h b post) (find_attr h b (M w)) else true) && coh h S b post
+  end.
+Definition mro_coherent (h : heap) (specs : list spec) (D : target) (b : attr) : bool :=
+  coh h (map spec_key specs) b (D :: M D).
+
+Lemma R_find S h h' b : R S h h' ->
+  forall l, coh h S b l = true -> find_attr h' b l = find_attr h b l.
+Proof.
+  intros HR. induction l as [|w post IH]; intro Hc; simpl in *; [reflexivity|].
+  apply andb_true_iff in Hc. destruct Hc as [Hc1 Hc2]. specialize (IH Hc2).
+  destruct (HR w b) as [E|[I [N L]]].
+  - rewrite E. destruct (h w b); [reflexivity|assumption].
+  - apply in_keys_In in I. rewrite I, N in Hc1. simpl in Hc1. apply opt_eqb_eq in Hc1.
+    rewrite N, L, (lookup_unowned _ _ _ N), <- Hc1.
+    destruct (find_attr h b post); [reflexivity|assumption].
+Qed.
+Lemma R_lookup S h h' D b : R S h h' -> coh h S b (D :: M D) = true -> lookup h' D b = lookup h D b.
+Proof. intros HR Hc. unfold lookup. now apply (R_find S). Qed.
+
+Definition tail_coherent : Prop :=
+  forall D pre w post, D :: M D = pre ++ w :: post -> post = M w.
+Lemma coh_tail h S b : tail_coherent -> forall D, coh h S b (D :: M D) = true.
+Proof.
+  intros HT D.
+  assert (G : forall l, (forall pre w post, l = pre ++ w :: post -> post = M w) -> coh h S b l = true).
+  { induction l as [|w post IH]; intro H; simpl; [reflexivity|].
+    rewrite IH.
+    - rewrite andb_true_r. destruct (in_keys (w, b) S && negb (is_some (h w b))); [|reflexivity].
+      apply opt_eqb_eq. now rewrite (H [] w post eq_refl).
+    - intros pre w' post' E. apply (H (w :: pre) w' post'). now rewrite E. }
+  apply G. intros pre w post E. now apply (HT D pre).
+Qed.
+
+(* ---- DESIGN B.3 form: single parent, fuel-bounded chain *)
+Fixpoint chain (fuel : nat) (parent : target -> option target) (t : target) : list target :=
+  match fuel with
+  | 0 => []
+  | S f => match parent t with None => [] | Some p => p :: chain f parent p end
+  end.
+Fixpoint lookup_parent (fuel : nat) (parent : target -> option target) (h : heap) (t : target) (a : attr)
+  : option value :=
+  match h t a with
+  | Some v => Some v
+  | None => match fuel with
+            | 0 => None
+            | S f => match parent t with None => None | Some p => lookup_parent f parent h p a end
+            end
+  end.
+
+End PatchModel.
+Arguments restore1 : simpl never.
+
+Lemma lookup_parent_chain fuel parent h : forall t a,
+  lookup_parent fuel parent h t a = lookup (chain fuel parent) h t a.
+Proof.
+  unfold lookup. induction fuel as [|f IH]; intros t a; simpl.
+  - destruct (h t a); reflexivity.
+  - destruct (h t a) eqn:E; [reflexivity|]. destruct (parent t) as [p|]; [|reflexivity].
+    rewrite IH. simpl. reflexivity.
+Qed.
+(* fuel is sufficient when one more unit changes nothing (the chains are well-founded) *)
+Lemma chain_tail_coherent fuel parent :
+  (forall t, chain fuel parent t = chain (S fuel) parent t) -> tail_coherent (chain fuel parent).
+Proof.
+  intros Hf D pre. revert D. induction pre as [|x pre IH]; intros D w post E; simpl in E.
+  - inversion E. reflexivity.
+  - inversion E as [[E1 E2]]. subst x. rewrite Hf in E2. simpl in E2.
+    destruct (parent D) as [p|]; [|destruct pre; discriminate].
+    apply (IH p). exact E2.
+Qed.
+
+Section PatchTheorems.
+Variable M : hierarchy.
+Notation lookup := (lookup M).
+Notation R := (R M).
+
+(* ================================================================== THEOREMS: apply_patches *)
+
+Lemma annotate_keys f : forall specs k,
+  map (fun it : item => spec_key (fst it)) (annotate specs k f) = map spec_key specs.
+Proof. induction specs as [|s r IH]; intro k; simpl; [reflexivity|]. now rewrite IH. Qed.
+
+(* what one activation restores, at own-dict level *)
+Theorem with_patches_R specs f body Sb h :
+  sync_fault f ->
+  clash_free M (owned_in h) (map spec_key specs) Sb = true ->
+  body_materializes_only M Sb body ->
+  R (map spec_key specs ++ Sb) h (fst (with_patches M specs f body h)).
+Proof.
+  intros Hf Hc Hb. rewrite with_patches_core.
+  pose proof (annotate_keys f specs) as Ek.
+  rewrite <- (Ek 0). apply (core_R M _ _ _ _ (owned_in h)).
+  - reflexivity.
+  - now apply sync_annotate.
+  - now rewrite Ek.
+  - unfold body_of. destruct (is_in_body f); [|assumption]. intro h0. apply R_refl.
+Qed.
+
+(* MAIN: getattr is restored for every observer and attribute, for every spec list (duplicates
+   allowed), every synchronous fault point and every body that leaves the own dicts as it found them *)
+Theorem apply_patches_restores specs f body h :
+  sync_fault f ->
+  no_inherited_clash M h specs = true ->
+  body_restores body ->
+  forall D a, mro_coherent M h specs D a = true ->
+    lookup (fst (with_patches M specs f body h)) D a = lookup h D a.
+Proof.
+  intros Hf Hc Hb D a Hcoh.
+  apply (R_lookup M (map spec_key specs ++ [])).
+  - apply with_patches_R; [assumption|exact Hc|now apply body_restores_mat].
+  - now rewrite app_nil_r.
+Qed.
+
+Corollary apply_patches_restores_single_inheritance specs f body h :
+  tail_coherent M -> sync_fault f -> no_inherited_clash M h specs = true -> body_restores body ->
+  forall D a, lookup (fst (with_patches M specs f body h)) D a = lookup h D a.
+Proof.
+  intros HT Hf Hc Hb D a. apply apply_patches_restores; try assumption. now apply coh_tail.
+Qed.
+
+(* nesting: a body that is itself heap-restoring up to materialisation of Sb (e.g. an inner
+   activation) composes, provided the outer specs do not clash with the keys the body touches *)
+Theorem nested_restores specs f body Sb h :
+  sync_fault f ->
+  clash_free M (owned_in h) (map spec_key specs) Sb = true ->
+  body_materializes_only M Sb body ->
+  forall D a, coh M h (map spec_key specs ++ Sb) a (D :: M D) = true ->
+    lookup (fst (with_patches M specs f body h)) D a = lookup h D a.
+Proof.
+  intros Hf Hc Hb D a Hcoh. apply (R_lookup M (map spec_key specs ++ Sb)); [|assumption].
+  now apply with_patches_R.
+Qed.
+
+(* an activation whose keys are statically clash-free is itself a legitimate body, on every heap *)
+Theorem with_patches_composes specs f body Sb :
+  sync_fault f ->
+  static_clash_free M (map spec_key specs) Sb = true ->
+  body_materializes_only M Sb body ->
+  body_materializes_only M (map spec_key specs ++ Sb) (with_patches M specs f body).
+Proof.
+  intros Hf Hc Hb h0. apply with_patches_R; try assumption.
+  apply (clash_free_mono M _ _ (fun _ _ => false)); [intros; discriminate|exact Hc].
+Qed.
+
+(* the ExitStack of activations (one frame per plugin, entered in registry order) *)
+Definition stack_keys (frames : list (list spec * fault)) : list key :=
+  map spec_key (concat (map fst frames)).
+Lemma stack_items_keys_incl frames :
+  exists rest, stack_keys frames = map (fun it : item => spec_key (fst it)) (stack_items frames) ++ rest.
+Proof.
+  induction frames as [|[specs f] r [rest IH]]; simpl.
+  - exists []. reflexivity.
+  - pose proof (annotate_keys f specs) as Ek.
+    unfold stack_keys in *. simpl. rewrite map_app, map_app, Ek.
+    destruct (is_in_body f); simpl.
+    + exists (map spec_key (concat (map fst r))). now rewrite app_nil_r.
+    + exists rest. now rewrite IH, app_assoc.
+Qed.
+Lemma clash_free_prefix : forall ks1 ks2 o, clash_free M o (ks1 ++ ks2) [] = true -> clash_free M o ks1 [] = true.
+Proof.
+  induction ks1 as [|[t a] r IH]; intros ks2 o H; simpl in *; [reflexivity|].
+  apply andb_true_iff in H. destruct H as [H1 H2]. apply andb_true_iff. split.
+  - rewrite forallb_forall in *. intros k Hk. apply H1. rewrite app_nil_r in *.
+    apply in_or_app. now left.
+  - now apply (IH ks2).
+Qed.
+Lemma sync_stack frames : (forall sf, In sf frames -> sync_fault (snd sf)) -> sync_items (stack_items frames).
+Proof.
+  induction frames as [|[specs f] r IH]; intros H s; simpl; [tauto|].
+  intro I. apply in_app_or in I. destruct I as [I|I].
+  - apply (sync_annotate specs 0 f (H (specs, f) (or_introl eq_refl)) s I).
+  - destruct (is_in_body f); [destruct I|]. apply (IH (fun sf Hsf => H sf (or_intror Hsf)) s I).
+Qed.
+
+Theorem stack_restores frames body h :
+  (forall sf, In sf frames -> sync_fault (snd sf)) ->
+  clash_free M (owned_in h) (stack_keys frames) [] = true ->
+  body_restores body ->
+  forall D a, coh M h (stack_keys frames) a (D :: M D) = true ->
+    lookup (fst (with_stack M frames body h)) D a = lookup h D a.
+Proof.
+  intros Hf Hc Hb D a Hcoh. rewrite with_stack_core.
+  destruct (stack_items_keys_incl frames) as [rest Ek].
+  apply (R_lookup M (stack_keys frames)); [|assumption].
+  apply (R_mono M (map (fun it : item => spec_key (fst it)) (stack_items frames) ++ [])).
+  - rewrite app_nil_r, Ek. apply incl_appl, incl_refl.
+  - apply (core_R M _ _ _ _ (owned_in h)).
+    + reflexivity.
+    + now apply sync_stack.
+    + rewrite Ek in Hc. now apply clash_free_prefix in Hc.
+    + assert (G : forall fr, body_materializes_only M [] (stack_body fr body)).
+      { induction fr as [|[sp f] r IH]; simpl; [now apply body_restores_mat|].
+        destruct (is_in_body f); [intro h0; apply R_refl|assumption]. }
+      apply G.
+Qed.
+
+(* ---- own-dict level: exactly what is and is not restored *)
+(* (i) an attribute the object OWNED is restored exactly — no side condition at all *)
+Lemma core_owned t a x : forall items body h,
+  sync_items items ->
+  (forall h0, h0 t a = Some x -> fst (body h0) t a = Some x) ->
+  h t a = Some x -> fst (core M items body h) t a = Some x.
+Proof.
+  induction items as [|[s fp] rest IH]; intros body h Hs Hb Hh; simpl; [now apply Hb|].
+  assert (Hs' : sync_items rest) by (intros s0 I; apply (Hs s0); now right).
+  destruct fp; simpl; [| assumption | exfalso; apply (Hs s); now left].
+  destruct (new_value s (lookup h (spec_target s) (spec_attr s))) as [v|] eqn:En; simpl; [|assumption].
+  destruct (key_eqb (t, a) (spec_target s, spec_attr s)) eqn:Ek.
+  - apply key_eqb_eq in Ek. inversion Ek as [[E1 E2]]. rewrite <- E1, <- E2.
+    rewrite restore1_same. now apply lookup_owned.
+  - assert (Hne : (t, a) <> (spec_target s, spec_attr s)) by (intro E; apply key_eqb_eq in E; congruence).
+    rewrite restore1_other by assumption. apply IH; try assumption.
+    rewrite set_other by assumption. assumption.
+Qed.
+Theorem owned_restored_exactly specs f body h t a x :
+  sync_fault f -> body_restores body -> h t a = Some x ->
+  fst (with_patches M specs f body h) t a = Some x.
+Proof.
+  intros Hf Hb Hh. rewrite with_patches_core. apply core_owned; try assumption.
+  - now apply sync_annotate.
+  - intros h0 H0. unfold body_of. destruct (is_in_body f); simpl; [assumption|]. now rewrite Hb.
+Qed.
+(* (ii) an attribute that did not resolve at all is absent again (restored by delattr) *)
+Theorem missing_restored_exactly specs f body h t a :
+  sync_fault f -> no_inherited_clash M h specs = true -> body_restores body ->
+  lookup h t a = None -> fst (with_patches M specs f body h) t a = None.
+Proof.
+  intros Hf Hc Hb Hl.
+  assert (Hn : h t a = None).
+  { destruct (h t a) eqn:E; [|reflexivity]. rewrite (lookup_owned M _ _ _ _ E) in Hl. discriminate. }
+  destruct (with_patches_R specs f body [] h Hf Hc (body_restores_mat M _ Hb) t a) as [E|[_ [_ L]]].
+  - now rewrite E.
+  - now rewrite L.
+Qed.
+(* (iii) an INHERITED attribute is written into the own dict (setattr(tgt, attr, orig)): the own dict
+   changes, getattr does not.  Stated as: every own entry after is the entry before or the value
+   getattr found before.                                                                            *)
+Theorem own_after_is_own_or_inherited specs f body h t a :
+  sync_fault f -> no_inherited_clash M h specs = true -> body_restores body ->
+  fst (with_patches M specs f body h) t a = h t a \/
+  (In (t, a) (map spec_key specs) /\ h t a = None /\ fst (with_patches M specs f body h) t a = lookup h t a).
+Proof.
+  intros Hf Hc Hb.
+  destruct (with_patches_R specs f body [] h Hf Hc (body_restores_mat M _ Hb) t a) as [E|[I [N L]]].
+  - now left.
+  - right. rewrite app_nil_r in I. auto.
+Qed.
+Theorem untouched_keys_untouched specs f body h t a :
+  sync_fault f -> no_inherited_clash M h specs = true -> body_restores body ->
+  ~ In (t, a) (map spec_key specs) -> fst (with_patches M specs f body h) t a = h t a.
+Proof.
+  intros Hf Hc Hb Hn. destruct (own_after_is_own_or_inherited specs f body h t a Hf Hc Hb) as [E|[I _]];
+    [assumption|contradiction].
+Qed.
+
+(* ================================================================== sequences of conversions *)
+(* global coherence, preserved by materialisation: lets the single-activation theorem iterate *)
+Definition gcoh (h : heap) (S : list key) : Prop := forall D b, coh M h S b (D :: M D) = true.
+Lemma coh_tail_part h S b w post : coh M h S b (w :: post) = true -> coh M h S b post = true.
+Proof. simpl. intro H. apply andb_true_iff in H. tauto. Qed.
+Lemma gcoh_preserved S h h' : R S h h' -> gcoh h S -> gcoh h' S.
+Proof.
+  intros HR HG D b.
+  assert (G : forall l, coh M h S b l = true -> coh M h' S b l = true).
+  { induction l as [|w post IH]; intro Hc; [reflexivity|].
+    pose proof (coh_tail_part _ _ _ _ _ Hc) as Hp. simpl in Hc |- *. rewrite (IH Hp), andb_true_r.
+    destruct (in_keys (w, b) S) eqn:Ei; simpl; [|reflexivity].
+    destruct (h' w b) eqn:E'; simpl; [reflexivity|].
+    assert (N : h w b = None).
+    { destruct (HR w b) as [E|[_ [N _]]]; [now rewrite <- E|assumption]. }
+    rewrite N in Hc. simpl in Hc. apply andb_true_iff in Hc. destruct Hc as [Hc _].
+    apply opt_eqb_eq in Hc. apply opt_eqb_eq.
+    rewrite (R_find M S h h' b HR post Hp).
+    rewrite (R_find M S h h' b HR (M w) (coh_tail_part _ _ _ _ _ (HG w b))). exact Hc. }
+  apply G, HG.
+Qed.
+Lemma R_owned_grows S h h' u b : R S h h' -> owned_in h u b = true -> owned_in h' u b = true.
+Proof.
+  unfold owned_in. intros HR H. destruct (HR u b) as [E|[_ [N _]]]; [now rewrite E|].
+  rewrite N in H. discriminate.
+Qed.
+
+(* a history: each conversion is an ExitStack of activations with its own fault schedule *)
+Fixpoint run_history (hist : list (list (list spec * fault))) (body : heap -> heap * outcome) (h : heap) : heap :=
+  match hist with
+  | [] => h
+  | frames :: rest => run_history rest body (fst (with_stack M frames body h))
+  end.
+Theorem history_restores S body : body_restores body ->
+  forall hist h,
+  (forall frames, In frames hist ->
+     (forall sf, In sf frames -> sync_fault (snd sf)) /\ incl (stack_keys frames) S /\
+     clash_free M (owned_in h) (stack_keys frames) [] = true) ->
+  gcoh h S ->
+  forall D a, lookup (run_history hist body h) D a = lookup h D a.
+Proof.
+  intros Hb. induction hist as [|frames rest IH]; intros h Hall HG D a; simpl; [reflexivity|].
+  destruct (Hall frames (or_introl eq_refl)) as [Hf [Hi Hc]].
+  set (h' := fst (with_stack M frames body h)).
+  assert (HR : R S h h').
+  { unfold h'. rewrite with_stack_core.
+    destruct (stack_items_keys_incl frames) as [rest' Ek].
+    apply (R_mono M (map (fun it : item => spec_key (fst it)) (stack_items frames) ++ [])).
+    - rewrite app_nil_r. intros k Hk. apply Hi. rewrite Ek. apply in_or_app. now left.
+    - apply (core_R M _ _ _ _ (owned_in h)); [reflexivity|now apply sync_stack| |].
+      + rewrite Ek in Hc. now apply clash_free_prefix in Hc.
+      + assert (G : forall fr, body_materializes_only M [] (stack_body fr body)).
+        { induction fr as [|[sp f] r IHf]; simpl; [now apply body_restores_mat|].
+          destruct (is_in_body f); [intro h0; apply R_refl|assumption]. }
+        apply G. }
+  rewrite IH.
+  - apply (R_lookup M S); [assumption|apply HG].
+  - intros fr Hfr. destruct (Hall fr (or_intror Hfr)) as [Hf' [Hi' Hc']]. repeat split; try assumption.
+    apply (clash_free_mono M _ _ (owned_in h)); [|assumption]. intros u b. now apply (R_owned_grows S).
+  - now apply (gcoh_preserved S h).
+Qed.
+
+End PatchTheorems.
+
+(* ================================================================== apply_monkey_patches *)
+(* _PATCH_STATE : (tgt, attr) -> {"orig", "count"}.  An activation patches a key only on the 0 -> 1
+   transition and restores it on 1 -> 0.  NOTE the apply loop runs BEFORE the try: an exception
+   while entering (getattr without default on a missing attribute, patch_fn raising) unwinds
+   nothing — modelled faithfully, see amp_apply_fault_leaks.                                        *)
+Definition pstate := target -> attr -> option (value * Z).
+Definition ps_upd (ps : pstate) (t : target) (a : attr) (e : option (value * Z)) : pstate :=
+  fun u b => if (u =? t) && (b =? a) then e else ps u b.
+Definition ps_empty : pstate := fun _ _ => None.
+(* (tgt, attr, patch_fn); patch_fn result None = it raises *)
+Definition amp_spec := (target * attr * (value -> option value))%type.
+Definition amp_key (s : amp_spec) : key := (fst (fst s), snd (fst s)).
+Definition amp_body := heap * pstate -> heap * pstate * outcome.
+
+Lemma ps_upd_same ps t a e : ps_upd ps t a e t a = e.
+Proof. unfold ps_upd. now rewrite !Nat.eqb_refl. Qed.
+Lemma ps_upd_other ps t a e u b : (u, b) <> (t, a) -> ps_upd ps t a e u b = ps u b.
+Proof.
+  intro H. unfold ps_upd.
+  destruct (u =? t) eqn:E1; [|reflexivity]. destruct (b =? a) eqn:E2; [|reflexivity].
+  apply Nat.eqb_eq in E1. apply Nat.eqb_eq in E2. subst. now contradiction H.
+Qed.
+
+Section Amp.
+Variable M : hierarchy.
+Notation lookup := (lookup M).
+
+Fixpoint amp_enter (ks : list amp_spec) (k : nat) (f : fault) (h : heap) (ps : pstate) (touched : list key)
+  : heap * pstate * list key * outcome :=
+  match ks with
+  | [] => (h, ps, touched, Returned)
+  | (t, a, pf) :: rest =>
+    match ps t a with
+    | Some (orig, c) =>                                       (* st["count"] += 1 *)
+      amp_enter rest (S k) f h (ps_upd ps t a (Some (orig, (c + 1)%Z))) (touched ++ [(t, a)])
+    | None =>
+      match fpoint_at f k with
+      | FBefore => (h, ps, touched, Raised)
+      | fp =>
+        match lookup h t a with
+        | None => (h, ps, touched, Raised)                    (* getattr(tgt, attr): AttributeError *)
+        | Some orig =>
+          match pf orig with
+          | None => (h, ps, touched, Raised)                  (* patch_fn(orig) raised *)
+          | Some new =>
+            let h1 := py_setattr h t a new in
+            match fp with
+            | FAfter => (h1, ps, touched, Raised)
+            | _ => amp_enter rest (S k) f h1 (ps_upd ps t a (Some (orig, 1%Z))) (touched ++ [(t, a)])
+            end
+          end
+        end
+      end
+    end
+  end.
+
+Definition amp_exit1 (hp : heap * pstate) (k : key) : heap * pstate :=
+  let (h, ps) := hp in let (t, a) := k in
+  match ps t a with
+  | None => (h, ps)                                           (* if not st: continue *)
+  | Some (orig, c) =>
+    let c' := (c - 1)%Z in
+    if (c' =? 0)%Z then (py_setattr h t a orig, ps_upd ps t a None)    (* setattr; finally pop *)
+    else (h, ps_upd ps t a (Some (orig, c')))
+  end.
+Definition amp_exit_all (touched : list key) (hp : heap * pstate) : heap * pstate :=
+  fold_left amp_exit1 (rev touched) hp.
+
+Definition amp_raise_now : amp_body := fun hp => (fst hp, snd hp, Raised).
+Definition amp_body_of (f : fault) (body : amp_body) : amp_body := if is_in_body f then amp_raise_now else body.
+
+Definition amp_finish (body : amp_body) (r : heap * pstate * list key * outcome) : heap * pstate * outcome :=
+  let '(h1, ps1, touched, oc) := r in
+  match oc with
+  | Raised => (h1, ps1, Raised)                               (* raised before `try`: nothing unwound *)
+  | Returned =>
+    let '(h2, ps2, oc2) := body (h1, ps1) in
+    let (h3, ps3) := amp_exit_all touched (h2, ps2) in (h3, ps3, oc2)
+  end.
+Definition with_amp (ks : list amp_spec) (f : fault) (body : amp_body) (hp : heap * pstate)
+  : heap * pstate * outcome :=
+  amp_finish (amp_body_of f body) (amp_enter ks 0 f (fst hp) (snd hp) []).
+Definition amp_entered (ks : list amp_spec) (f : fault) (hp : heap * pstate) : bool :=
+  match snd (amp_enter ks 0 f (fst hp) (snd hp) []) with Returned => true | Raised => false end.
+
+(* structural form; the flag says whether the enter loop completed *)
+Fixpoint amp_nested (ks : list amp_spec) (k : nat) (f : fault) (body : amp_body) (h : heap) (ps : pstate)
+  : heap * pstate * outcome * bool :=
+  match ks with
+  | [] => (body (h, ps), true)
+  | (t, a, pf) :: rest =>
+    match ps t a with
+    | Some (orig, c) =>
+      let r := amp_nested rest (S k) f body h (ps_upd ps t a (Some (orig, (c + 1)%Z))) in
+      if snd r then (amp_exit1 (fst (fst r)) (t, a), snd (fst r), true) else r
+    | None =>
+      match fpoint_at f k with
+      | FBefore => (h, ps, Raised, false)
+      | fp =>
+        match lookup h t a with
+        | None => (h, ps, Raised, false)
+        | Some orig =>
+          match pf orig with
+          | None => (h, ps, Raised, false)
+          | Some new =>
+            let h1 := py_setattr h t a new in
+            match fp with
+            | FAfter => (h1, ps, Raised, false)
+            | _ =>
+              let r := amp_nested rest (S k) f body h1 (ps_upd ps t a (Some (orig, 1%Z))) in
+              if snd r then (amp_exit1 (fst (fst r)) (t, a), snd (fst r), true) else r
+            end
+          end
+        end
+      end
+    end
+  end.
+
+Lemma amp_exit_all_snoc touched k hp : amp_exit_all (touched ++ [k]) hp = amp_exit_all touched (amp_exit1 hp k).
+Proof. unfold amp_exit_all. rewrite rev_app_distr. reflexivity. Qed.
+
+Lemma amp_loop_nested body f : forall ks k h ps touched,
+  amp_finish body (amp_enter ks k f h ps touched)
+  = (let r := amp_nested ks k f body h ps in
+     if snd r then (amp_exit_all touched (fst (fst r)), snd (fst r)) else fst r).
+Proof.
+  induction ks as [|[[t a] pf] rest IH]; intros k h ps touched.
+  - simpl. destruct (body (h, ps)) as [[h2 ps2] oc2]. simpl.
+    destruct (amp_exit_all touched (h2, ps2)). reflexivity.
+  - simpl. destruct (ps t a) as [[orig c]|].
+    + rewrite IH. cbv zeta. destruct (amp_nested rest (S k) f body h _) as [[[h2 ps2] oc2] ent]. simpl.
+      destruct ent; simpl; [|reflexivity]. now rewrite amp_exit_all_snoc.
+    + destruct (fpoint_at f k); try reflexivity;
+        destruct (lookup h t a) as [orig|]; try reflexivity;
+        destruct (pf orig) as [new|]; try reflexivity.
+      rewrite IH. cbv zeta. destruct (amp_nested rest (S k) f body _ _) as [[[h2 ps2] oc2] ent]. simpl.
+      destruct ent; simpl; [|reflexivity]. now rewrite amp_exit_all_snoc.
+Qed.
+
+Lemma amp_entered_nested body f : forall ks k h ps touched,
+  (match snd (amp_enter ks k f h ps touched) with Returned => true | Raised => false end)
+  = snd (amp_nested ks k f body h ps).
+Proof.
+  induction ks as [|[[t a] pf] rest IH]; intros k h ps touched; simpl; [reflexivity|].
+  destruct (ps t a) as [[orig c]|].
+  - rewrite IH. destruct (amp_nested rest (S k) f body h _) as [[[h2 ps2] oc2] ent]. simpl. now destruct ent.
+  - destruct (fpoint_at f k); try reflexivity;
+      destruct (lookup h t a) as [orig|]; try reflexivity;
+      destruct (pf orig) as [new|]; try reflexivity.
+    rewrite IH. destruct (amp_nested rest (S k) f body _ _) as [[[h2 ps2] oc2] ent]. simpl. now destruct ent.
+Qed.
+
+Theorem with_amp_nested ks f body h ps :
+  with_amp ks f body (h, ps)
+  = (let r := amp_nested ks 0 f (amp_body_of f body) h ps in
+     if snd r then (fst (fst (fst r)), snd (fst (fst r)), snd (fst r)) else fst r)
+  /\ amp_entered ks f (h, ps) = snd (amp_nested ks 0 f (amp_body_of f body) h ps).
+Proof.
+  split.
+  - unfold with_amp. simpl. rewrite amp_loop_nested. cbv zeta.
+    destruct (amp_nested ks 0 f (amp_body_of f body) h ps) as [[[h2 ps2] oc2] ent]. simpl.
+    destruct ent; reflexivity.
+  - unfold amp_entered. simpl. apply amp_entered_nested.
+Qed.
+
+(* ---- invariants *)
+Definition ps_wf (ps : pstate) : Prop := forall t a orig c, ps t a = Some (orig, c) -> (1 <= c)%Z.
+Definition active (ps : pstate) (k : key) : Prop := is_some (ps (fst k) (snd k)) = true.
+Definition all_active (ps : pstate) (ks : list amp_spec) : Prop := forall s, In s ks -> active ps (amp_key s).
+
+(* the apply_patches items an activation amounts to: first occurrences of inactive keys *)
+Definition lift (pf : value -> option value) : option value -> option value :=
+  fun o => match o with Some v => pf v | None => None end.
+Fixpoint amp_items (act : target -> attr -> bool) (ks : list amp_spec) (k : nat) (f : fault) : list item :=
+  match ks with
+  | [] => []
+  | (t, a, pf) :: rest =>
+    if act t a then amp_items act rest (S k) f
+    else (Monkey t a (lift pf), fpoint_at f k) :: amp_items (owned_add act t a) rest (S k) f
+  end.
+Definition amp_patched (ps : pstate) (ks : list amp_spec) : list key :=
+  map (fun it : item => spec_key (fst it)) (amp_items (fun t a => is_some (ps t a)) ks 0 NoFault).
+
+Definition proj_body (body : amp_body) (ps : pstate) : heap -> heap * outcome :=
+  fun h0 => let r := body (h0, ps) in (fst (fst r), snd r).
+
+Definition amp_body_ps_ok (ks : list amp_spec) (body : amp_body) : Prop :=
+  forall h0 ps0, ps_wf ps0 -> all_active ps0 ks -> forall t a, snd (fst (body (h0, ps0))) t a = ps0 t a.
+
+Lemma amp_nested_sim ks0 body f : amp_body_ps_ok ks0 body ->
+  forall ks k h ps act h2 ps2 oc,
+  ps_wf ps -> (forall t a, act t a = is_some (ps t a)) ->
+  (forall s, In s ks0 -> In s ks \/ active ps (amp_key s)) ->
+  amp_nested ks k f body h ps = (h2, ps2, oc, true) ->
+  (forall t a, ps2 t a = ps t a) /\
+  exists ps_in, ps_wf ps_in /\ all_active ps_in ks0 /\
+    (h2, oc) = core M (amp_items act ks k f) (proj_body body ps_in) h.
+Proof.
+  intro Hb. induction ks as [|[[t a] pf] rest IH]; intros k h ps act h2 ps2 oc Hwf Hact Hcov H.
+  - simpl in H. destruct (body (h, ps)) as [[hb psb] ocb] eqn:Eb. inversion H; subst.
+    assert (Hall : all_active ps ks0).
+    { intros s Hs. destruct (Hcov s Hs) as [[]|A]. exact A. }
+    split.
+    + intros t a. pose proof (Hb h ps Hwf Hall t a) as E. now rewrite Eb in E.
+    + exists ps. repeat split; try assumption. simpl. unfold proj_body. now rewrite Eb.
+  - simpl in H. simpl. destruct (ps t a) as [[orig c]|] eqn:Ep.
+    + (* already active: count + 1 *)
+      rewrite Hact, Ep. simpl.
+      set (psb := ps_upd ps t a (Some (orig, (c + 1)%Z))) in *.
+      destruct (amp_nested rest (S k) f body h psb) as [[[h2' ps2'] oc'] ent] eqn:En. simpl in H.
+      destruct ent; [|inversion H].
+      assert (Hwfb : ps_wf psb).
+      { intros u b o' c' E. unfold psb, ps_upd in E. destruct ((u =? t) && (b =? a)).
+        - inversion E. specialize (Hwf _ _ _ _ Ep). timeout 20 lia.
+        - now apply (Hwf u b o'). }
+      assert (Hactb : forall u b, act u b = is_some (psb u b)).
+      { intros u b. unfold psb, ps_upd. destruct ((u =? t) && (b =? a)) eqn:E; [|apply Hact].
+        apply andb_true_iff in E. destruct E as [E1 E2]. apply Nat.eqb_eq in E1. apply Nat.eqb_eq in E2.
+        subst. now rewrite Hact, Ep. }
+      assert (Hcovb : forall s, In s ks0 -> In s rest \/ active psb (amp_key s)).
+      { intros s Hs. destruct (Hcov s Hs) as [[E|I]|A].
+        - right. subst s. unfold active, amp_key, psb. simpl. now rewrite ps_upd_same.
+        - now left.
+        - right. unfold active, psb, ps_upd in *. destruct (_ && _); [reflexivity|assumption]. }
+      destruct (IH (S k) h psb act h2' ps2' oc' Hwfb Hactb Hcovb En) as [Hps [ps_in [Hwi [Hai Hsim]]]].
+      unfold amp_exit1 in H. rewrite Hps in H. unfold psb in H at 1. rewrite ps_upd_same in H.
+      assert (Ec : ((c + 1 - 1 =? 0) = false)%Z) by (specialize (Hwf _ _ _ _ Ep); apply Z.eqb_neq; timeout 20 lia).
+      rewrite Ec in H. inversion H; subst h2 ps2 oc. split.
+      * intros u b. destruct (key_eqb (u, b) (t, a)) eqn:Ek.
+        -- apply key_eqb_eq in Ek. inversion Ek; subst u b. rewrite ps_upd_same, Ep.
+           f_equal. f_equal. timeout 20 lia.
+        -- assert (Hne : (u, b) <> (t, a)) by (intro E; apply key_eqb_eq in E; congruence).
+           rewrite ps_upd_other by assumption. rewrite Hps. unfold psb. now apply ps_upd_other.
+      * exists ps_in. repeat split; assumption.
+    + (* inactive: the 0 -> 1 transition patches *)
+      rewrite Hact, Ep. simpl.
+      destruct (fpoint_at f k) eqn:Efp; try (inversion H; fail);
+        destruct (lookup h t a) as [orig|] eqn:El; try (inversion H; fail);
+        destruct (pf orig) as [new|] eqn:Epf; try (inversion H; fail).
+      set (h1 := py_setattr h t a new) in *.
+      set (psb := ps_upd ps t a (Some (orig, 1%Z))) in *.
+      destruct (amp_nested rest (S k) f body h1 psb) as [[[h2' ps2'] oc'] ent] eqn:En. simpl in H.
+      destruct ent; [|inversion H].
+      assert (Hwfb : ps_wf psb).
+      { intros u b o' c' E. unfold psb, ps_upd in E. destruct ((u =? t) && (b =? a)).
+        - inversion E. timeout 20 lia.
+        - now apply (Hwf u b o'). }
+      assert (Hactb : forall u b, owned_add act t a u b = is_some (psb u b)).
+      { intros u b. unfold owned_add, psb, ps_upd. rewrite Hact.
+        destruct ((u =? t) && (b =? a)); simpl; [apply orb_true_r|apply orb_false_r]. }
+      assert (Hcovb : forall s, In s ks0 -> In s rest \/ active psb (amp_key s)).
+      { intros s Hs. destruct (Hcov s Hs) as [[E|I]|A].
+        - right. subst s. unfold active, amp_key, psb. simpl. now rewrite ps_upd_same.
+        - now left.
+        - right. unfold active, psb, ps_upd in *. destruct (_ && _); [reflexivity|assumption]. }
+      destruct (IH (S k) h1 psb _ h2' ps2' oc' Hwfb Hactb Hcovb En) as [Hps [ps_in [Hwi [Hai Hsim]]]].
+      unfold amp_exit1 in H. rewrite Hps in H. unfold psb in H at 1. rewrite ps_upd_same in H.
+      simpl in H. inversion H; subst h2 ps2 oc. split.
+      * intros u b. destruct (key_eqb (u, b) (t, a)) eqn:Ek.
+        -- apply key_eqb_eq in Ek. inversion Ek; subst u b. now rewrite ps_upd_same, Ep.
+        -- assert (Hne : (u, b) <> (t, a)) by (intro E; apply key_eqb_eq in E; congruence).
+           rewrite ps_upd_other by assumption. rewrite Hps. unfold psb. now apply ps_upd_other.
+      * exists ps_in. repeat split; try assumption.
+        simpl. rewrite Epf. fold h1. rewrite <- Hsim. reflexivity.
+Qed.
+
+Lemma amp_items_keys_gen : forall ks act k f k' f',
+  map (fun it : item => spec_key (fst it)) (amp_items act ks k f)
+  = map (fun it : item => spec_key (fst it)) (amp_items act ks k' f').
+Proof.
+  induction ks as [|[[t a] pf] rest IH]; intros act k f k' f'; simpl; [reflexivity|].
+  destruct (act t a); simpl; [apply IH|]. f_equal. apply IH.
+Qed.
+Lemma amp_items_keys act f ks k :
+  map (fun it : item => spec_key (fst it)) (amp_items act ks k f)
+  = map (fun it : item => spec_key (fst it)) (amp_items act ks 0 NoFault).
+Proof. apply amp_items_keys_gen. Qed.
+Definition no_apply_fault (f : fault) : Prop := match f with NoFault | InBody => True | _ => False end.
+Lemma amp_items_sync act f : no_apply_fault f -> forall ks k, sync_items (amp_items act ks k f).
+Proof.
+  intros Hf ks. revert act. induction ks as [|[[t a] pf] rest IH]; intros act k s; simpl; [tauto|].
+  destruct (act t a); [apply IH|]. intros [E|I]; [|now apply (IH (owned_add act t a) (S k) s)].
+  inversion E. destruct f; simpl in *; try discriminate; contradiction.
+Qed.
+
+(* a legitimate body of an activation of ks: whenever it is run with every key of ks active, it
+   gives _PATCH_STATE back as it found it and changes own dicts at most by materialising keys in Sb *)
+Definition amp_body_ok (ks : list amp_spec) (Sb : list key) (body : amp_body) : Prop :=
+  amp_body_ps_ok ks body /\
+  forall h0 ps0, ps_wf ps0 -> all_active ps0 ks -> R M Sb h0 (fst (fst (body (h0, ps0)))).
+
+Lemma amp_body_of_ok ks Sb f body : amp_body_ok ks Sb body -> amp_body_ok ks Sb (amp_body_of f body).
+Proof.
+  intros [H1 H2]. unfold amp_body_of. destruct (is_in_body f); [|split; assumption].
+  split; [intros h0 ps0 _ _ t a; reflexivity|intros h0 ps0 _ _; apply R_refl].
+Qed.
+
+(* MAIN (ref-counting): whenever the enter loop completes, for every body exit (normal or raising)
+   and every prior _PATCH_STATE (i.e. at every nesting depth): _PATCH_STATE is exactly as before and
+   the own dicts are as before up to materialisation of the keys this activation patched itself.    *)
+Theorem refcount_restores ks f body Sb h ps :
+  no_apply_fault f -> ps_wf ps -> amp_body_ok ks Sb body ->
+  clash_free M (owned_in h) (amp_patched ps ks) Sb = true ->
+  amp_entered ks f (h, ps) = true ->
+  let r := with_amp ks f body (h, ps) in
+  (forall t a, snd (fst r) t a = ps t a) /\ R M (amp_patched ps ks ++ Sb) h (fst (fst r)).
+Proof.
+  intros Hf Hwf Hb Hc He. destruct (with_amp_nested ks f body h ps) as [E1 E2]. cbv zeta.
+  rewrite E1. rewrite E2 in He. cbv zeta.
+  destruct (amp_nested ks 0 f (amp_body_of f body) h ps) as [[[h2 ps2] oc] ent] eqn:En.
+  simpl in He. subst ent. simpl.
+  pose proof (amp_body_of_ok ks Sb f body Hb) as [Hb1 Hb2].
+  destruct (amp_nested_sim ks _ f Hb1 ks 0 h ps (fun t a => is_some (ps t a)) h2 ps2 oc Hwf
+              (fun _ _ => eq_refl) (fun s Hs => or_introl Hs) En) as [Hps [ps_in [Hwi [Hai Hsim]]]].
+  split; [assumption|].
+  replace h2 with (fst (core M (amp_items (fun t a => is_some (ps t a)) ks 0 f)
+                            (proj_body (amp_body_of f body) ps_in) h)) by (now rewrite <- Hsim).
+  unfold amp_patched. rewrite <- (amp_items_keys _ f ks 0).
+  apply (core_R M _ _ _ _ (owned_in h)).
+  - reflexivity.
+  - now apply amp_items_sync.
+  - rewrite (amp_items_keys _ f ks 0). exact Hc.
+  - intro h0. unfold proj_body. simpl. now apply Hb2.
+Qed.
+
+(* an activation entered while all its keys are already active only counts *)
+Lemma amp_items_active act f : forall ks k,
+  (forall s, In s ks -> act (fst (fst s)) (snd (fst s)) = true) -> amp_items act ks k f = [].
+Proof.
+  induction ks as [|[[t a] pf] rest IH]; intros k H; simpl; [reflexivity|].
+  pose proof (H (t, a, pf) (or_introl eq_refl)) as E. simpl in E. rewrite E.
+  apply IH. intros s Hs. apply H. now right.
+Qed.
+Lemma amp_active_enters body f : forall ks k h ps,
+  all_active ps ks -> snd (amp_nested ks k f body h ps) = true.
+Proof.
+  induction ks as [|[[t a] pf] rest IH]; intros k h ps Ha; simpl; [reflexivity|].
+  pose proof (Ha (t, a, pf) (or_introl eq_refl)) as A. unfold active, amp_key in A. simpl in A.
+  destruct (ps t a) as [[orig c]|]; [|discriminate].
+  rewrite IH; [reflexivity|]. intros s Hs. unfold active, ps_upd.
+  destruct (_ && _); [reflexivity|]. apply (Ha s). now right.
+Qed.
+Theorem refcount_reentrant ks f body Sb h ps :
+  no_apply_fault f -> ps_wf ps -> all_active ps ks -> amp_body_ok ks Sb body ->
+  let r := with_amp ks f body (h, ps) in
+  amp_entered ks f (h, ps) = true /\
+  (forall t a, snd (fst r) t a = ps t a) /\ R M Sb h (fst (fst r)).
+Proof.
+  intros Hf Hwf Ha Hb.
+  assert (He : amp_entered ks f (h, ps) = true).
+  { destruct (with_amp_nested ks f body h ps) as [_ E2]. rewrite E2. now apply amp_active_enters. }
+  assert (Ep : amp_patched ps ks = []).
+  { unfold amp_patched. rewrite amp_items_active; [reflexivity|]. intros s Hs. apply (Ha s Hs). }
+  split; [assumption|].
+  pose proof (refcount_restores ks f body Sb h ps Hf Hwf Hb) as T. rewrite Ep in T. simpl in T.
+  apply T; [reflexivity|assumption].
+Qed.
+
+(* nesting depth n of the same activation (outer trace, then function bodies re-entering it) *)
+Fixpoint amp_depth (n : nat) (ks : list amp_spec) (fb : fault) (body : amp_body) : amp_body :=
+  match n with
+  | 0 => amp_body_of fb body
+  | S m => with_amp ks NoFault (amp_depth m ks fb body)
+  end.
+Lemma amp_depth_ok ks Sb fb body : amp_body_ok ks Sb body -> forall n, amp_body_ok ks Sb (amp_depth n ks fb body).
+Proof.
+  intros Hb. induction n as [|n IH]; simpl; [now apply amp_body_of_ok|].
+  split.
+  - intros h0 ps0 Hwf Ha t a.
+    destruct (refcount_reentrant ks NoFault _ Sb h0 ps0 I Hwf Ha IH) as [_ [H _]]. apply H.
+  - intros h0 ps0 Hwf Ha.
+    destruct (refcount_reentrant ks NoFault _ Sb h0 ps0 I Hwf Ha IH) as [_ [_ H]]. apply H.
+Qed.
+Theorem refcount_nesting n ks fb body Sb h ps :
+  ps_wf ps -> amp_body_ok ks Sb body ->
+  clash_free M (owned_in h) (amp_patched ps ks) Sb = true ->
+  amp_entered ks NoFault (h, ps) = true ->
+  let r := amp_depth (S n) ks fb body (h, ps) in
+  (forall t a, snd (fst r) t a = ps t a) /\ R M (amp_patched ps ks ++ Sb) h (fst (fst r)).
+Proof.
+  intros Hwf Hb Hc He. simpl.
+  apply (refcount_restores ks NoFault (amp_depth n ks fb body) Sb h ps I Hwf); try assumption.
+  now apply amp_depth_ok.
+Qed.
+(* getattr-level corollary *)
+Corollary refcount_restores_lookup ks f body h ps :
+  no_apply_fault f -> ps_wf ps -> amp_body_ok ks [] body ->
+  clash_free M (owned_in h) (amp_patched ps ks) [] = true ->
+  amp_entered ks f (h, ps) = true ->
+  forall D a, coh M h (amp_patched ps ks) a (D :: M D) = true ->
+    lookup (fst (fst (with_amp ks f body (h, ps)))) D a = lookup h D a.
+Proof.
+  intros Hf Hwf Hb Hc He D a Hcoh.
+  destruct (refcount_restores ks f body [] h ps Hf Hwf Hb Hc He) as [_ HR].
+  apply (R_lookup M (amp_patched ps ks ++ [])); [exact HR|now rewrite app_nil_r].
+Qed.
+
+End Amp.
+
+(* ================================================================== the x64 flag *)
+(* user_interface._temporary_x64(enabled) wraps conversion_api._force_jax_x64(enabled).
+   A body maps the flag it is entered with to the flag it leaves behind and how it exits. *)
+Definition flag_body := bool -> bool * outcome.
+Definition temporary_x64 (enabled : bool) (body : flag_body) (flag : bool) : bool * outcome :=
+  let prev := flag in
+  let flag1 := if negb (Bool.eqb enabled prev) then enabled else flag in   (* inside try *)
+  let r := body flag1 in
+  ((if negb (Bool.eqb (fst r) prev) then prev else fst r), snd r).        (* finally *)
+Definition force_x64 (tgt : bool) (body : flag_body) (flag : bool) : bool * outcome :=
+  let previous := flag in
+  let flag1 := if negb (Bool.eqb previous tgt) then tgt else flag in
+  let r := body flag1 in
+  ((if negb (Bool.eqb previous tgt) then previous else fst r), snd r).    (* finally *)
+Definition to_onnx_x64 (enable_double : bool) (body : flag_body) : bool -> bool * outcome :=
+  temporary_x64 enable_double (force_x64 enable_double body).
+
+Theorem temporary_x64_restores enabled body flag : fst (temporary_x64 enabled body flag) = flag.
+Proof.
+  unfold temporary_x64. simpl. destruct (Bool.eqb (fst (body _)) flag) eqn:E; simpl; [|reflexivity].
+  now apply Bool.eqb_prop in E.
+Qed.
+Theorem temporary_x64_outcome enabled body flag :
+  snd (temporary_x64 enabled body flag) = snd (body (if negb (Bool.eqb enabled flag) then enabled else flag)).
+Proof. reflexivity. Qed.
+Definition flag_restoring (body : flag_body) : Prop := forall fl, fst (body fl) = fl.
+Theorem force_x64_restores tgt body flag : flag_restoring body -> fst (force_x64 tgt body flag) = flag.
+Proof.
+  intro Hb. unfold force_x64. simpl. destruct (Bool.eqb flag tgt) eqn:E; simpl; [apply Hb|reflexivity].
+Qed.
+(* every previous flag value, every requested precision, every body (restoring or not, raising or not) *)
+Theorem x64_flag_restored enable_double body flag : fst (to_onnx_x64 enable_double body flag) = flag.
+Proof. apply temporary_x64_restores. Qed.
+Theorem x64_flag_during_body enable_double body flag :
+  flag_restoring body ->
+  snd (to_onnx_x64 enable_double body flag) = snd (body enable_double).
+Proof.
+  intros Hb. unfold to_onnx_x64. rewrite temporary_x64_outcome. unfold force_x64. simpl.
+  destruct enable_double, flag; reflexivity.
+Qed.
+(* the inner manager alone is not robust against a body that changes the flag *)
+Theorem force_x64_alone_not_robust : exists tgt body flag, fst (force_x64 tgt body flag) <> flag.
+Proof. exists true, (fun _ => (false, Raised)), true. vm_compute. discriminate. Qed.
+
+(* ContextVar discipline of FunctionPlugin lowering: active = V.get(); V.set(active | {name});
+   try: body finally: V.set(active) *)
+Definition scoped_set {A} (new : A) (body : A -> A * outcome) (cur : A) : A * outcome :=
+  let r := body new in (cur, snd r).
+Theorem in_function_build_restored {A} (new : A) body cur : fst (scoped_set new body cur) = cur.
+Proof. reflexivity. Qed.
+
+(* ================================================================== the jit trace cache *)
+(* jax.jit caches the traced jaxpr of a callable per (callable, avals) — NOT per patch state.  A
+   jitted callee first traced while the converter's substitutes are active is cached with plugin
+   primitives, which have no MLIR lowering; a later eager call with the same avals hits that entry. *)
+Inductive trace := Clean | WithPluginPrims.
+Definition cache := list (nat * nat * trace).
+Fixpoint cache_get (c : cache) (g av : nat) : option trace :=
+  match c with
+  | [] => None
+  | (g', av', tr) :: r => if (g' =? g) && (av' =? av) then Some tr else cache_get r g av
+  end.
+Definition call_jitted (patched : bool) (c : cache) (g av : nat) : cache * trace :=
+  match cache_get c g av with
+  | Some tr => (c, tr)
+  | None => let tr := if patched then WithPluginPrims else Clean in ((g, av, tr) :: c, tr)
+  end.
+(* Export g av: to_onnx of a function that calls the jitted g at avals av (whether the export
+   succeeds or fails later in lowering is irrelevant: tracing has happened) *)
+Inductive event := EExport (g av : nat) | EEager (g av : nat).
+Inductive eager_result := EagerOk | NoMlirRule.
+Fixpoint run_events (evs : list event) (c : cache) : list eager_result :=
+  match evs with
+  | [] => []
+  | EExport g av :: r => run_events r (fst (call_jitted true c g av))
+  | EEager g av :: r =>
+    let x := call_jitted false c g av in
+    (match snd x with Clean => EagerOk | WithPluginPrims => NoMlirRule end) :: run_events r (fst x)
+  end.
+Definition fresh_process_results (evs : list event) : list eager_result :=
+  map (fun _ => EagerOk) (filter (fun e => match e with EEager _ _ => true | _ => false end) evs).
+
+(* REFUTED on the unchanged code: eager calls behave as in a fresh process after any history *)
+Theorem eager_after_export_refuted : exists hist, run_events hist [] <> fresh_process_results hist.
+Proof. exists [EExport 0 0; EEager 0 0]. vm_compute. discriminate. Qed.
+
+Definition cache_clean (c : cache) : Prop := forall g av tr, cache_get c g av = Some tr -> tr = Clean.
+Lemma eager_keeps_clean c g av : cache_clean c -> cache_clean (fst (call_jitted false c g av)) /\ snd (call_jitted false c g av) = Clean.
+Proof.
+  intro H. unfold call_jitted. destruct (cache_get c g av) as [tr|] eqn:E; simpl.
+  - split; [assumption|now apply (H g av)].
+  - split; [|reflexivity]. intros g' av' tr'. simpl.
+    destruct ((g =? g') && (av =? av')); [intro X; now inversion X|apply H].
+Qed.
+(* PARTIAL: the pollution enters only through exports — without them every eager call is fine *)
+Theorem eager_ok_without_export : forall hist c,
+  cache_clean c -> (forall e, In e hist -> match e with EEager _ _ => True | _ => False end) ->
+  run_events hist c = fresh_process_results hist.
+Proof.
+  induction hist as [|e r IH]; intros c Hc Hall; [reflexivity|].
+  pose proof (Hall e (or_introl eq_refl)) as He. destruct e as [g av|g av]; [destruct He|].
+  unfold fresh_process_results. simpl. destruct (eager_keeps_clean c g av Hc) as [H1 H2]. rewrite H2.
+  f_equal. apply IH; [assumption|]. intros e' I. apply Hall. now right.
+Qed.
+(* PARTIAL: a callee that was traced eagerly before the export stays usable (and the export then
+   sees the un-substituted trace) *)
+Theorem warm_cache_protects g av rest :
+  (forall e, In e rest -> e = EExport g av \/ e = EEager g av) ->
+  run_events (EEager g av :: rest) [] = fresh_process_results (EEager g av :: rest).
+Proof.
+  intro Hall. unfold fresh_process_results. simpl. f_equal.
+  assert (G : forall r, (forall e, In e r -> e = EExport g av \/ e = EEager g av) ->
+            run_events r [(g, av, Clean)] =
+            map (fun _ => EagerOk) (filter (fun e => match e with EEager _ _ => true | _ => false end) r)).
+  { induction r as [|e r IHr]; intro H; [reflexivity|].
+    destruct (H e (or_introl eq_refl)) as [-> | ->]; simpl; unfold call_jitted; simpl;
+      rewrite !Nat.eqb_refl; simpl; [|f_equal]; apply IHr; intros e' I; apply H; now right. }
+  now apply G.
+Qed.
+(* the repair: key the cache by the patch state as well *)
+Definition cachek := list (nat * nat * bool * trace).
+Fixpoint cachek_get (c : cachek) (g av : nat) (p : bool) : option trace :=
+  match c with
+  | [] => None
+  | (g', av', p', tr) :: r => if (g' =? g) && (av' =? av) && Bool.eqb p' p then Some tr else cachek_get r g av p
+  end.
+Definition call_jitted_keyed (patched : bool) (c : cachek) (g av : nat) : cachek * trace :=
+  match cachek_get c g av patched with
+  | Some tr => (c, tr)
+  | None => let tr := if patched then WithPluginPrims else Clean in ((g, av, patched, tr) :: c, tr)
+  end.
+Fixpoint run_events_keyed (evs : list event) (c : cachek) : list eager_result :=
+  match evs with
+  | [] => []
+  | EExport g av :: r => run_events_keyed r (fst (call_jitted_keyed true c g av))
+  | EEager g av :: r =>
+    let x := call_jitted_keyed false c g av in
+    (match snd x with Clean => EagerOk | WithPluginPrims => NoMlirRule end) :: run_events_keyed r (fst x)
+  end.
+Definition unpatched_clean (c : cachek) : Prop := forall g av tr, cachek_get c g av false = Some tr -> tr = Clean.
+Theorem keyed_cache_repairs : forall hist c, unpatched_clean c -> run_events_keyed hist c = fresh_process_results hist.
+Proof.
+  induction hist as [|e r IH]; intros c Hc; [reflexivity|]. destruct e as [g av|g av].
+  - unfold fresh_process_results. simpl. apply IH.
+    unfold call_jitted_keyed. destruct (cachek_get c g av true); simpl; [assumption|].
+    intros g' av' tr'. simpl. rewrite andb_false_r. apply Hc.
+  - unfold fresh_process_results. simpl. unfold call_jitted_keyed.
+    destruct (cachek_get c g av false) as [tr|] eqn:E; simpl.
+    + rewrite (Hc g av tr E). f_equal. now apply IH.
+    + f_equal. apply IH. intros g' av' tr'. simpl.
+      destruct ((g =? g') && (av =? av') && true); [intro X; now inversion X|apply Hc].
+Qed.
+
+(* ================================================================== data-level interface (harness) *)
+Inductive spec_d := DAssign (t : target) (a : attr) (v : value)
+                  | DMonkey (t : target) (a : attr) (base : nat)        (* make_value(o) = base + code(o) *)
+                  | DMonkeyRaise (t : target) (a : attr).
+Definition code_orig (o : option value) : nat := match o with None => 0 | Some x => S x end.
+Definition spec_of_d (d : spec_d) : spec :=
+  match d with
+  | DAssign t a v => Assign t a v
+  | DMonkey t a base => Monkey t a (fun o => Some (base + code_orig o))
+  | DMonkeyRaise t a => Monkey t a (fun _ => None)
+  end.
+Definition heap_of (l : list (target * attr * value)) : heap :=
+  fun t a => match find (fun e => key_eqb (fst e) (t, a)) l with Some e => Some (snd e) | None => None end.
+Definition mro_of (l : list (target * list target)) : hierarchy :=
+  fun t => match find (fun e => fst e =? t) l with Some e => snd e | None => [] end.
+(* an observation: (target, attr, own entry, getattr result) *)
+Definition obs := (target * attr * option value * option value)%type.
+Definition obs_ok (M : hierarchy) (h : heap) (l : list obs) : bool :=
+  forallb (fun o => let '(t, a, ow, lk) := o in opt_eqb (h t a) ow && opt_eqb (lookup M h t a) lk) l.
+Definition outcome_eqb (x y : outcome) : bool :=
+  match x, y with Returned, Returned | Raised, Raised => true | _, _ => false end.
+
+(* heap at the moment the body is entered (None: an exception prevented that) *)
+Fixpoint core_mid (M : hierarchy) (items : list item) (h : heap) : option heap :=
+  match items with
+  | [] => Some h
+  | (s, fp) :: rest =>
+    match fp with
+    | FNone =>
+      match new_value s (lookup M h (spec_target s) (spec_attr s)) with
+      | None => None
+      | Some v => core_mid M rest (py_setattr h (spec_target s) (spec_attr s) v)
+      end
+    | _ => None
+    end
+  end.
+Lemma core_mid_spec M : forall items h hm, core_mid M items h = Some hm ->
+  exists unwind, forall body, core M items body h = (unwind (fst (body hm)), snd (body hm)).
+Proof.
+  induction items as [|[s fp] rest IH]; intros h hm H; simpl in H.
+  - inversion H; subst. exists (fun x => x). intro body. simpl. now destruct (body hm).
+  - destruct fp; try discriminate.
+    destruct (new_value s (lookup M h (spec_target s) (spec_attr s))) as [v|] eqn:En; [|discriminate].
+    destruct (IH _ _ H) as [u Hu].
+    exists (fun x => restore1 (u x) (spec_target s, spec_attr s, lookup M h (spec_target s) (spec_attr s))).
+    intro body. simpl. rewrite En, Hu. reflexivity.
+Qed.
+
+Definition frames_of (fr : list (list spec_d * fault)) : list (list spec * fault) :=
+  map (fun x => (map spec_of_d (fst x), snd x)) fr.
+(* one tie-D case for apply_patches: hierarchy, initial own entries, the activation stack, whether
+   the body returns, the observations made by the body (None: body not reached), after, outcome *)
+Definition pcase := (list (target * list target) * list (target * attr * value) *
+                     list (list spec_d * fault) * bool * option (list obs) * list obs * outcome)%type.
+Definition pcase_ok (c : pcase) : bool :=
+  let '(ml, ol, fr, body_returns, mid, after, oc) := c in
+  let M := mro_of ml in let h := heap_of ol in
+  let frames := frames_of fr in
+  let body : heap -> heap * outcome := fun x => (x, if body_returns then Returned else Raised) in
+  let r := with_stack M frames body h in
+  obs_ok M (fst r) after && outcome_eqb (snd r) oc &&
+  match core_mid M (stack_items frames) h, mid with
+  | Some hm, Some l => negb (existsb (fun x => is_in_body (snd x)) fr) && obs_ok M hm l
+  | None, None => true
+  | Some _, None => existsb (fun x => is_in_body (snd x)) fr
+  | None, Some _ => false
+  end.
+
+(* one tie-D case for apply_monkey_patches: nesting depth (>= 1), keys with patch_fn as data *)
+Inductive pf_d := PfAffine (base : nat) | PfRaise.
+Definition pf_of (d : pf_d) : value -> option value :=
+  match d with PfAffine base => fun o => Some (base + S o) | PfRaise => fun _ => None end.
+Definition acase := (list (target * list target) * list (target * attr * value) *
+                     list (target * attr * pf_d) * nat * bool *
+                     list obs * list (target * attr * option (value * Z)) * outcome)%type.
+Definition ps_obs_ok (ps : pstate) (l : list (target * attr * option (value * Z))) : bool :=
+  forallb (fun o => let '(t, a, e) := o in
+    match ps t a, e with
+    | Some (v, c), Some (v', c') => (v =? v') && (c =? c')%Z
+    | None, None => true
+    | _, _ => false
+    end) l.
+Definition acase_ok (c : acase) : bool :=
+  let '(ml, ol, ks, depth, body_returns, after, psafter, oc) := c in
+  let M := mro_of ml in let h := heap_of ol in
+  let ks' := map (fun x => (fst (fst x), snd (fst x), pf_of (snd x))) ks in
+  let body : amp_body := fun hp => (fst hp, snd hp, if body_returns then Returned else Raised) in
+  let r := amp_depth M depth ks' NoFault body (h, ps_empty) in
+  obs_ok M (fst (fst r)) after && ps_obs_ok (snd (fst r)) psafter && outcome_eqb (snd r) oc.
+
+(* the real spec list, dumped by the harness: predicted own / getattr differences after one
+   activation stack, and the clashes that explain them *)
+Definition predicted_diffs (ml : list (target * list target)) (ol : list (target * attr * value))
+  (fr : list (list spec_d * fault)) (universe : list key) : list key * list key :=
+  let M := mro_of ml in let h := heap_of ol in
+  let h' := fst (with_stack M (frames_of fr) (fun x => (x, Returned)) h) in
+  (filter (fun k => negb (opt_eqb (lookup M h' (fst k) (snd k)) (lookup M h (fst k) (snd k)))) universe,
+   filter (fun k => negb (opt_eqb (h' (fst k) (snd k)) (h (fst k) (snd k)))) universe).
+Definition real_clashes (ml : list (target * list target)) (ol : list (target * attr * value))
+  (ks : list key) : list (target * key) :=
+  clash_list (mro_of ml) (owned_in (heap_of ol)) ks [].
+Definition real_incoherent (ml : list (target * list target)) (ol : list (target * attr * value))
+  (ks : list key) (universe : list key) : list key :=
+  filter (fun k => negb (coh (mro_of ml) (heap_of ol) ks (snd k) (fst k :: mro_of ml (fst k)))) universe.
+
+(* ================================================================== non-vacuity and refutations *)
+Module Examples.
+(* targets: 0 = class Base, 1 = class Child(Base), 2 = a module, 3 = class Mix, 4 = class D(Child, Mix)
+   attrs:   0 = __call__, 1 = helper (missing everywhere), 2 = f (module function)                  *)
+Definition M0 : hierarchy := mro_of [(1, [0]); (4, [1; 3; 0])].
+Definition h0 : heap := heap_of [(0, 0, 10); (2, 2, 20); (3, 0, 30)].
+
+(* child patched BEFORE parent: clash-free, everything restored; duplicate spec, missing attribute *)
+Definition specs_ok : list spec :=
+  [Assign 2 1 77; Monkey 1 0 (fun o => Some 100); Monkey 0 0 (fun o => Some 101);
+   Assign 2 2 21; Assign 2 2 22; Monkey 1 0 (fun o => Some 102)].
+Example ex_clash_free : no_inherited_clash M0 h0 specs_ok = true.
+Proof. vm_compute. reflexivity. Qed.
+Example ex_patched_inside :
+  let hm := core_mid M0 (annotate specs_ok 0 NoFault) h0 in
+  match hm with
+  | Some h => (lookup M0 h 1 0, lookup M0 h 0 0, lookup M0 h 2 2, lookup M0 h 2 1) = (Some 102, Some 101, Some 22, Some 77)
+  | None => False
+  end.
+Proof. vm_compute. reflexivity. Qed.
+Example ex_restored_all_faults :
+  forallb (fun f =>
+    let h := fst (with_patches M0 specs_ok f (fun x => (x, Returned)) h0) in
+    forallb (fun t => forallb (fun a => opt_eqb (lookup M0 h t a) (lookup M0 h0 t a)) [0; 1; 2]) [0; 1; 2; 3])
+    [NoFault; InBody; BeforeSet 0; BeforeSet 1; BeforeSet 2; BeforeSet 3; BeforeSet 4; BeforeSet 5] = true.
+Proof. vm_compute. reflexivity. Qed.
+(* the own dict of Child gains __call__ (materialised), the missing helper is deleted again *)
+Example ex_materialised :
+  let h := fst (with_patches M0 specs_ok NoFault (fun x => (x, Returned)) h0) in
+  (h0 1 0, h 1 0, h 2 1, h0 2 1) = (None, Some 10, None, None).
+Proof. vm_compute. reflexivity. Qed.
+Example ex_coherent_for_chain : mro_coherent M0 h0 specs_ok 1 0 = true.
+Proof. vm_compute. reflexivity. Qed.
+
+(* parent patched BEFORE the inheriting child: the side condition fails ... *)
+Definition specs_clash : list spec := [Monkey 0 0 (fun o => Some 101); Monkey 1 0 (fun o => Some 100)].
+Example ex_clash_detected : no_inherited_clash M0 h0 specs_clash = false.
+Proof. vm_compute. reflexivity. Qed.
+End Examples.
+
+(* ... and it is necessary: the child saves the parent's PATCHED value as its original *)
+Theorem inherited_clash_leaks : exists M h specs t a,
+  no_inherited_clash M h specs = false /\ mro_coherent M h specs t a = true /\
+  lookup M (fst (with_patches M specs NoFault (fun x => (x, Returned)) h)) t a <> lookup M h t a.
+Proof.
+  exists Examples.M0, Examples.h0, Examples.specs_clash, 1, 0. vm_compute.
+  repeat split; discriminate.
+Qed.
+(* multiple inheritance: materialising an inherited attribute on a class shadows what a subclass
+   resolved through ANOTHER base — no clash, one spec; mro_coherent is what rules it out *)
+Theorem incoherent_mro_leaks : exists M h specs D a,
+  no_inherited_clash M h specs = true /\ mro_coherent M h specs D a = false /\
+  lookup M (fst (with_patches M specs NoFault (fun x => (x, Returned)) h)) D a <> lookup M h D a.
+Proof.
+  exists Examples.M0, Examples.h0, [Monkey 1 0 (fun _ => Some 100)], 4, 0. vm_compute.
+  repeat split; discriminate.
+Qed.
+(* an exception between setattr and applied.append (asynchronous only) is not unwound *)
+Theorem async_fault_after_setattr_leaks : exists M h specs k t a,
+  lookup M (fst (with_patches M specs (AfterSet k) (fun x => (x, Returned)) h)) t a <> lookup M h t a.
+Proof.
+  exists Examples.M0, Examples.h0, [Assign 2 2 21], 0, 2, 2. vm_compute. discriminate.
+Qed.
+(* apply_monkey_patches: an exception in the enter loop (here: getattr on a missing attribute for
+   the second key) leaves the first key patched and its count at 1 for ever *)
+Theorem amp_apply_fault_leaks : exists M h ks t a,
+  let r := with_amp M ks NoFault (fun hp => (fst hp, snd hp, Returned)) (h, ps_empty) in
+  amp_entered M ks NoFault (h, ps_empty) = false /\
+  lookup M (fst (fst r)) t a <> lookup M h t a /\ snd (fst r) t a <> ps_empty t a.
+Proof.
+  exists Examples.M0, Examples.h0, [(0, 0, fun o => Some 500); (2, 1, fun o => Some 501)], 0, 0.
+  vm_compute. repeat split; discriminate.
+Qed.
+(* non-vacuity of refcount_restores / refcount_nesting: depth 3, body raising *)
+Example amp_nesting_example :
+  let ks := [(0, 0, fun o => Some 500); (2, 2, fun o => Some 501); (0, 0, fun o => Some 502)] in
+  let r := amp_depth Examples.M0 3 ks InBody (fun hp => (fst hp, snd hp, Returned)) (Examples.h0, ps_empty) in
+  amp_entered Examples.M0 ks NoFault (Examples.h0, ps_empty) = true /\
+  snd r = Raised /\
+  forallb (fun t => forallb (fun a => opt_eqb (fst (fst r) t a) (Examples.h0 t a) &&
+                                       negb (is_some (snd (fst r) t a))) [0; 1; 2]) [0; 1; 2; 3] = true.
+Proof. vm_compute. repeat split; reflexivity. Qed.
